@@ -207,7 +207,7 @@ def trialObserve (v : World) (t : TrialO) (js : JobCond) (now : Nat) : Prog :=
     let logs := dbOf v t.key.name
     if logs.isEmpty then .step (.dbGet t.key.name) (cont t.st) (.done .err)
     else match Metrics.getMetrics logs [objMetric] with
-      | some ms => .step (.dbGet t.key.name) (cont { t.st with obs := some ms }) (.done .err)
+      | some ms => .step (.dbGet t.key.name) (cont { t.st with obs := some (ms.map (fun m => { m with lastTs := none })) }) (.done .err)
       | none => .step (.dbGet t.key.name) (.done .err) (.done .err)
   else cont t.st
 
